@@ -39,11 +39,11 @@ func buildTar(src *fstree.Node, format string, addRoot, dotPrefix bool) ([]byte,
 	for _, e := range fstree.Flatten(want) {
 		n := e.Node
 		if format == "gnu" {
-			n.Nsec = 0
-			n.Xattrs = nil
-			if n.Sec == 0 { // floor gave the exact epoch, desync's documented "no time" value: outside the domain
+			if n.Sec == 0 && n.Nsec != 0 { // floor would turn a real time into the exact epoch, desync's "no time"
 				n.Sec = 1
 			}
+			n.Nsec = 0
+			n.Xattrs = nil
 		} else {
 			var xs []fstree.Xattr
 			for _, x := range n.Xattrs {
@@ -353,6 +353,8 @@ func compareFlat(want *fstree.Node, recs []rec, format string, skipRootMeta, sha
 			}
 			mf := fstree.MtimeField(n.Sec, n.Nsec)
 			switch {
+			case n.IsEpoch():
+				// "no time": the node's own mtime is not compared
 			case !r.hasTime:
 				add(mf, "no time")
 			case format == "mtree" && !r.timeOK:
